@@ -109,102 +109,101 @@ func ruleMapOrder(c *Ctx) []*Obligation {
 	add := c.MustFunc(pkgUtil, "CharReferenceMap", "AddInterval")
 	look := c.MustFunc(pkgUtil, "CharReferenceMap", "Lookup")
 	key := "utilities.CharReferenceMap#otherIntervals#insert-vs-search"
-	// AddInterval and Lookup evaluated abstractly above the table boundary: two registrations A then B
-	// are made (each creating one interval object); Lookup must answer with B's reference where both
-	// cover the character, with A's where only A does, with B's where only B does, with nil for neither.
-	const ch = 0x0300
-	register := func(list aiVal, name string) (aiVal, string) {
-		ai := &absInterp{c: c, fn: add, env: map[ssa.Value]aiVal{}, fields: map[string]aiVal{"otherIntervals": list}}
-		if len(add.Params) >= 4 {
-			ai.env[add.Params[1]] = aiInt(0x0200)
-			ai.env[add.Params[2]] = aiInt(0x0400)
-			ai.env[add.Params[3]] = aiSym("ref" + name)
-		}
-		ai.inline = func(g *ssa.Function) bool { return recvNamedFn(g) == "CharReferenceMap" }
-		ai.call = func(ai *absInterp, call *ssa.Call) (aiVal, bool) {
-			if f := calleeObj(call.Common()); f != nil && f.Name() == "NewCharReferenceInterval" {
-				return aiSym("interval" + name), true
-			}
-			return aiVal{}, false
-		}
-		out := ai.run(add.Blocks[0], nil, 0)
-		if out.kind != "return" {
-			return aiVal{}, "AddInterval: " + out.why
-		}
-		l := ai.fields["otherIntervals"]
-		if l.kind != "list" {
-			return aiVal{}, "AddInterval does not keep the intervals in a list the model can follow"
-		}
-		return l, ""
+	// AddInterval and Lookup evaluated abstractly above the table boundary: short histories of
+	// registrations (ranges are concrete numbers, references are symbols or nil, interval objects live in
+	// the interpreter's heap, every method of the map and of the intervals is executed in place) followed
+	// by lookups; the answer must be the reference of the latest registration covering the character.
+	type reg struct {
+		lo, hi int64
+		ref    string // "" = nil reference
 	}
-	lookup := func(list aiVal, inA, inB bool) (string, string) {
-		ai := &absInterp{c: c, fn: look, env: map[ssa.Value]aiVal{}, fields: map[string]aiVal{"otherIntervals": list}}
-		if len(look.Params) >= 2 {
-			ai.env[look.Params[1]] = aiInt(ch)
+	type probe struct {
+		ch   int64
+		want string // "" = nil
+	}
+	run := func(regs []reg, probes []probe) (string, string) {
+		fields := map[string]aiVal{"otherIntervals": {kind: "list"}}
+		nobj := 0
+		inline := func(g *ssa.Function) bool {
+			r := recvNamedFn(g)
+			return r == "CharReferenceMap" || r == "CharReferenceInterval" || g.Name() == "NewCharReferenceInterval"
 		}
-		ai.inline = func(g *ssa.Function) bool { return recvNamedFn(g) == "CharReferenceMap" }
-		ai.call = func(ai *absInterp, call *ssa.Call) (aiVal, bool) {
-			f := calleeObj(call.Common())
-			if f == nil || recvNamed(f) != "CharReferenceInterval" {
-				return aiVal{}, false
+		for _, r := range regs {
+			ai := &absInterp{c: c, fn: add, env: map[ssa.Value]aiVal{}, fields: fields, nobj: nobj}
+			if len(add.Params) < 4 {
+				return "", "AddInterval has an unexpected signature"
 			}
-			iv := ai.get(call.Common().Args[0])
-			switch f.Name() {
-			case "InRange":
-				if iv.kind == "sym" {
-					return aiBool((iv.s == "intervalA" && inA) || (iv.s == "intervalB" && inB)), true
+			ai.env[add.Params[0]] = aiSym("map")
+			ai.env[add.Params[1]] = aiInt(r.lo)
+			ai.env[add.Params[2]] = aiInt(r.hi)
+			if r.ref == "" {
+				ai.env[add.Params[3]] = aiNil()
+			} else {
+				ai.env[add.Params[3]] = aiSym(r.ref)
+			}
+			ai.inline = inline
+			out := ai.run(add.Blocks[0], nil, 0)
+			if out.kind != "return" {
+				return "", "AddInterval: " + out.why
+			}
+			nobj = ai.nobj
+		}
+		for _, pr := range probes {
+			ai := &absInterp{c: c, fn: look, env: map[ssa.Value]aiVal{}, fields: fields, nobj: nobj}
+			ai.env[look.Params[0]] = aiSym("map")
+			ai.env[look.Params[1]] = aiInt(pr.ch)
+			ai.inline = inline
+			out := ai.run(look.Blocks[0], nil, 0)
+			if out.kind != "return" || len(out.ret) != 1 {
+				return "", "Lookup: " + out.why
+			}
+			got := ""
+			switch out.ret[0].kind {
+			case "nil":
+			case "sym":
+				got = out.ret[0].s
+			default:
+				return "", "Lookup returns a value outside the model"
+			}
+			if got != pr.want {
+				show := func(s string) string {
+					if s == "" {
+						return "nothing"
+					}
+					return s
 				}
-			case "Reference":
-				if iv.kind == "sym" {
-					return aiSym("ref" + strings.TrimPrefix(iv.s, "interval")), true
+				var hist []string
+				for _, r := range regs {
+					hist = append(hist, fmt.Sprintf("%s over U+%04X..U+%04X", show(r.ref), r.lo, r.hi))
 				}
+				return fmt.Sprintf("after registering %s, Lookup(U+%04X) answers %s; the latest covering registration is %s", strings.Join(hist, ", then "), pr.ch, show(got), show(pr.want)), ""
 			}
-			return aiVal{}, false
 		}
-		out := ai.run(look.Blocks[0], nil, 0)
-		if out.kind != "return" || len(out.ret) != 1 {
-			return "", "Lookup: " + out.why
-		}
-		switch out.ret[0].kind {
-		case "nil":
-			return "nil", ""
-		case "sym":
-			return out.ret[0].s, ""
-		}
-		return "", "Lookup returns a value outside the model"
+		return "", ""
 	}
-	l1, why := register(aiVal{kind: "list"}, "A")
-	var l2 aiVal
-	if why == "" {
-		l2, why = register(l1, "B")
+	histories := []struct {
+		regs   []reg
+		probes []probe
+	}{
+		{[]reg{{0x200, 0x400, "A"}, {0x300, 0x500, "B"}}, []probe{{0x250, "A"}, {0x350, "B"}, {0x450, "B"}, {0x600, ""}}},
+		{[]reg{{0x200, 0x400, "A"}, {0x300, 0x500, ""}}, []probe{{0x250, "A"}, {0x350, ""}, {0x450, ""}}},
+		{[]reg{{0x200, 0x400, "A"}, {0x300, 0x500, "B"}, {0x300, 0x350, "A"}}, []probe{{0x320, "A"}, {0x360, "B"}, {0x250, "A"}}},
+		{[]reg{{0x200, 0x400, "A"}, {0x200, 0x400, "A"}, {0x300, 0x300, "B"}}, []probe{{0x300, "B"}, {0x301, "A"}}},
 	}
-	if why != "" {
-		o.undecided(key, c.Pos(add.Pos()), why)
-		return o.list
-	}
-	bad := ""
-	for _, sc := range []struct {
-		inA, inB bool
-		want     string
-	}{{true, true, "refB"}, {true, false, "refA"}, {false, true, "refB"}, {false, false, "nil"}} {
-		got, why := lookup(l2, sc.inA, sc.inB)
-		if why != "" {
-			o.undecided(key, c.Pos(look.Pos()), why)
+	n := 0
+	for _, h := range histories {
+		n += len(h.probes)
+		bad, undec := run(h.regs, h.probes)
+		if undec != "" {
+			o.undecided(key, c.Pos(add.Pos()), undec)
 			return o.list
 		}
-		if got != sc.want && bad == "" {
-			if sc.inA && sc.inB {
-				bad = fmt.Sprintf("after registering A and then B over the same character above the table boundary, Lookup answers %s: the OLDEST covering registration wins there, while the table below the boundary gives the latest", got)
-			} else {
-				bad = fmt.Sprintf("with A covering: %v and B covering: %v, Lookup answers %s instead of %s", sc.inA, sc.inB, got, sc.want)
-			}
+		if bad != "" {
+			o.bad(key, c.Pos(add.Pos()), bad+": above the table boundary the map does not answer with the latest covering registration, while the table below the boundary does")
+			return o.list
 		}
 	}
-	if bad != "" {
-		o.bad(key, c.Pos(add.Pos()), bad)
-	} else {
-		o.ok(key, c.Pos(add.Pos()), "2 abstract registrations and 4 abstract lookups: above the table boundary the latest covering registration is found first")
-	}
+	o.ok(key, c.Pos(add.Pos()), fmt.Sprintf("%d abstract registration histories, %d lookups: above the table boundary the latest covering registration (a nil one included) answers", len(histories), n))
 	return o.list
 }
 
@@ -789,6 +788,67 @@ func ruleScanSymbol(c *Ctx) []*Obligation {
 	}
 	report(deep, true, "one character is read per level and pushed back exactly when the walk stops (end of input included)")
 	report(unw, false, "one character is pushed back per step from an invalid node to its parent")
+	// where the unwinding stops: evaluated abstractly on chains root ← n1 ← n2 ← n3 (objects in the
+	// interpreter's heap) for every validity pattern: the result is the nearest valid node at or above
+	// the start (the root if none), with one push-back per step
+	{
+		key := c.FuncKey(unw) + "#stops-at-nearest-valid"
+		bad, undec, runs := "", "", 0
+		for pattern := 0; pattern < 8 && bad == ""; pattern++ {
+			for start := 1; start <= 3 && bad == ""; start++ {
+				runs++
+				valid := func(i int) bool { return i >= 1 && pattern&(1<<(i-1)) != 0 }
+				unreads := 0
+				ai := &absInterp{c: c, fn: unw, env: map[ssa.Value]aiVal{}, fields: map[string]aiVal{}}
+				for i := 0; i <= 3; i++ {
+					n := fmt.Sprintf("n%d", i)
+					ai.fields[n+".valid"] = aiBool(valid(i))
+					if i == 0 {
+						ai.fields[n+".parent"] = aiNil()
+					} else {
+						ai.fields[n+".parent"] = aiSym(fmt.Sprintf("n%d", i-1))
+					}
+				}
+				ai.env[unw.Params[0]] = aiSym(fmt.Sprintf("n%d", start))
+				ai.inline = func(g *ssa.Function) bool { return recvNamedFn(g) == "SymbolNode" }
+				ai.call = func(ai *absInterp, call *ssa.Call) (aiVal, bool) {
+					if call.Call.IsInvoke() && call.Call.Method.Name() == "Unread" {
+						unreads++
+						return aiUnknown(), true
+					}
+					return aiVal{}, false
+				}
+				out := ai.run(unw.Blocks[0], nil, 0)
+				if out.kind != "return" || len(out.ret) != 1 || out.ret[0].kind != "sym" {
+					undec = "UnreadToValid: " + out.why
+					continue
+				}
+				want := 0
+				for i := start; i >= 1; i-- {
+					if valid(i) {
+						want = i
+						break
+					}
+				}
+				got := out.ret[0].s
+				if got != fmt.Sprintf("n%d", want) || unreads != start-want {
+					var vs []string
+					for i := 1; i <= 3; i++ {
+						vs = append(vs, fmt.Sprintf("n%d valid=%v", i, valid(i)))
+					}
+					bad = fmt.Sprintf("starting at n%d on the chain root←n1←n2←n3 (%s) the unwinding returns %s after %d push-back(s); the nearest valid node at or above the start is n%d, %d level(s) up: an unregistered prefix is returned as a symbol (or too many / too few characters stay consumed)", start, strings.Join(vs, ", "), got, unreads, want, start-want)
+				}
+			}
+		}
+		switch {
+		case bad != "":
+			o.bad(key, c.Pos(unw.Pos()), bad)
+		case undec != "":
+			o.undecided(key, c.Pos(unw.Pos()), undec)
+		default:
+			o.ok(key, c.Pos(unw.Pos()), fmt.Sprintf("%d abstract runs over all validity patterns of a 3-level chain", runs))
+		}
+	}
 	// root: one Read; the trie path calls DeepestRead then UnreadToValid on its result; the fallback token is the single character read
 	reads := 0
 	var readCall *ssa.Call
